@@ -42,8 +42,8 @@ def run(pid, tier, seed):
         if p.returncode != 0:
             raise MachineryError("harness %s failed: %s" % (eng["cmd"], (p.stderr or p.stdout)[-3000:]))
         s = json.loads(p.stdout.strip().splitlines()[-1])
-        if s["cases"] != res["distinct"]:
-            raise MachineryError("harness evaluated %d cases but TLC enumerated %d states" % (s["cases"], res["distinct"]))
+        if s.get("states", s["cases"]) != res["distinct"]:
+            raise MachineryError("harness read %d states but TLC enumerated %d" % (s.get("states", s["cases"]), res["distinct"]))
         replay = ""
         if s["mismatches"]:
             rd = os.path.join(RUN, "replays", "%s_seed%d_%s" % (pid, seed, tier))
